@@ -1,4 +1,15 @@
-(* placeholder so that the pipeline can be exercised; replaced by the real theorems *)
-From SV Require Import Names Rep.
-Theorem C16_placeholder : True. Proof. exact I. Qed.
-Print Assumptions C16_placeholder.
+(* C16 -- compose is the name-respecting union, or a ValueError.
+   Theorem statements only; proofs (by computation in the kernel) in Sweeps.v.
+   BOUNDED: all 19 x 19 ordered pairs of complexes on at most 3 labelled points with names tied to
+   vertex sets (all compatible): the result is the union, each operand a sub-complex of it with its
+   names and faces; one single-name perturbation is rejected with ValueError. *)
+From Coq Require Import String ZArith Bool Arith List.
+From SV Require Import Names Rep Complex Homology Filtration Gen World Small Sweeps.
+
+Theorem C16_union_upto3_partial : forall c1 c2, In c1 complexes3 -> In c2 complexes3 -> chk_compose c1 c2 = true.
+Proof. exact compose_upto3. Qed.
+Print Assumptions C16_union_upto3_partial.
+
+Theorem C16_incompatible_rejected_example : chk_compose_incompatible = true.
+Proof. exact sweep_compose_incompatible. Qed.
+Print Assumptions C16_incompatible_rejected_example.
